@@ -118,6 +118,21 @@ AddAll(is) ==
      /\ report' = <<>>
      /\ UNCHANGED <<U, allowed, required>>
 
+(* naunet extend --append-depletion / --append-<kind>-desorption.  U.S[c] = [surface, neutral, gas] describes species class c
+   (gas = class of its gas-phase counterpart, 0 if none).  Depletion appends, for EVERY neutral gas species the network holds at
+   that moment, exactly one reaction  c -> ice(c)  of type 200; desorption of kind ty appends, for EVERY ice species held at that
+   moment (including those depletion has just created), exactly one reaction  s -> gas(s)  of type ty. *)
+Held == reactants \cup products
+IsDepl(i, c) == D(i).r = <<c>> /\ Len(D(i).p) = 1 /\ U.S[D(i).p[1]].surface /\ U.S[D(i).p[1]].gas = c /\ D(i).ty = 200
+IsDesorb(i, c, ty) == D(i).r = <<c>> /\ D(i).p = <<U.S[c].gas>> /\ D(i).ty = ty
+ExactlyOneEach(ids, wanted, Is(_, _)) ==
+  /\ \A c \in wanted : Cardinality({k \in DOMAIN ids : Is(ids[k], c)}) = 1
+  /\ \A k \in DOMAIN ids : \E c \in wanted : Is(ids[k], c)
+DepletionComplete(ids) == ExactlyOneEach(ids, {c \in Held : U.S[c].neutral}, IsDepl)
+DesorptionComplete(ids, ty) == ExactlyOneEach(ids, {c \in Held : U.S[c].surface}, LAMBDA i, c : IsDesorb(i, c, ty))
+AppendDepletion(ids) == DepletionComplete(ids) /\ AddAll(ids)
+AppendDesorption(ty, ids) == DesorptionComplete(ids, ty) /\ AddAll(ids)
+
 (* caches after a removal: recomputed from the reactions that remain (the repaired remove_reaction) *)
 AfterRemove(newlist) ==
   IF Variant = "stale_remove"
